@@ -22,11 +22,12 @@ Br(c, body) == [c |-> c, body |-> body, ln |-> 1]
 CondData == <<[n |-> "ti", v |-> I(3)], [n |-> "fi", v |-> I(0)], [n |-> "tf", v |-> F(1, 1)], [n |-> "ff", v |-> F(0, 0)],
               [n |-> "ts", v |-> S("a")], [n |-> "fs", v |-> S("")], [n |-> "nn", v |-> Nil],
               [n |-> "ea", v |-> A(<<>>)], [n |-> "eo", v |-> O(<<>>)], [n |-> "tb", v |-> B(TRUE)], [n |-> "fb", v |-> B(FALSE)],
-              [n |-> "ar", v |-> A(<<I(1), I(2), I(3)>>)], [n |-> "tn", v |-> NaN], [n |-> "tq", v |-> NInf], [n |-> "fz", v |-> NZero]>>
+              [n |-> "ar", v |-> A(<<I(1), I(2), I(3)>>)], [n |-> "tn", v |-> NaN], [n |-> "tq", v |-> NInf], [n |-> "fz", v |-> NZero],
+              [n |-> "tt", v |-> F(1, 30)], [n |-> "tm", v |-> F(-1, 30)]>>        \* 2^-30 and its negative: tiny but not zero
 Truthies == {BoolL(TRUE), IntL(1), FloatL(1, 1), StrL("a"), ArrL(<<>>), ArrL(<<IntL(0)>>), ObjL(<<>>),
              Var("ti"), Var("tf"), Var("ts"), Var("ea"), Var("eo"), Var("tb"), Pre("-", IntL(1)), StrL("0"), StrL(" "),
              \* NaN and the infinities are not zero
-             Var("tn"), Var("tq"), Bin("/", FloatL(0, 0), FloatL(0, 0)), Bin("/", FloatL(1, 0), FloatL(0, 0))}
+             Var("tn"), Var("tq"), Bin("/", FloatL(0, 0), FloatL(0, 0)), Bin("/", FloatL(1, 0), FloatL(0, 0)), Var("tt"), Var("tm")}
 Falsies  == {BoolL(FALSE), NilL, IntL(0), FloatL(0, 0), StrL(""), Var("fi"), Var("ff"), Var("fs"), Var("nn"), Var("fb"),
              Bin("-", IntL(1), IntL(1)), Var("fz"), Pre("-", FloatL(0, 0))}     \* -0.0 is zero
 Raisers  == {Var("zz"), Bin("/", IntL(1), IntL(0)), Bin("%", IntL(1), IntL(0)), Bin("+", IntL(1), StrL("a"))}
@@ -74,8 +75,12 @@ Placed(j) == {<<j, H("a"), P(V), H("b")>>, <<H("a"), j, P(V), H("b")>>, <<H("a")
               <<H("a"), If(<<Br(Bin("<", V, IntL(2)), <<H("lo")>>)>>, <<H("hi"), j, H("?")>>, 1), P(V), H("b")>>,
               <<H("a"), If(<<Br(BoolL(FALSE), <<H("n")>>), Br(IsTwo, <<If(<<Br(IntL(1), <<H("!"), j>>)>>, NoElse, 1), H("?")>>)>>,
                            NoElse, 1), P(V), H("b")>>}
+\* the loop object of the passes that follow a pass cut short by a jump
+AfterJump == {<<H("<"), Each("v", Var("ar"), <<j>> \o Meta, NoElse, 1), H(">")>> :
+                j \in {ContinueIf(LoopF("first"), 1), ContinueIf(Bin("<", V, IntL(3)), 1), If(<<Br(LoopF("first"), <<Continue(1)>>)>>, NoElse, 1),
+                       ContinueIf(Bin("==", LoopF("iter"), IntL(2)), 1), BreakIf(LoopF("last"), 1)}}
 IntArrays == {ArrL(<<IntL(1), IntL(2), IntL(3)>>), ArrL(<<IntL(2)>>), Var("ar"), ArrL(<<>>)}
-EachLoops == {<<H("<"), Each("v", a, Meta, els, 1), H(">")>> : a \in Arrays, els \in {NoElse, <<H("[empty]")>>}}
+EachLoops == AfterJump \cup {<<H("<"), Each("v", a, Meta, els, 1), H(">")>> : a \in Arrays, els \in {NoElse, <<H("[empty]")>>}}
        \cup {<<H("<"), Each("v", a, b, els, 1), H(">")>> : a \in IntArrays, els \in {NoElse, <<H("[empty]")>>},
                                                             b \in UNION {Placed(j) : j \in Jumps}}
 \* @for: init, condition, step direction
@@ -183,6 +188,11 @@ LoopProgs == {[p |-> <<Assign("loop", IntL(1), 1)>>, d |-> <<>>],
               [p |-> <<Each("v", Var("ar"), <<Assign("t", V, 1)>>, NoElse, 1), P(Var("t"))>>, d |-> CondData],
               [p |-> <<Each("v", ArrL(<<IntL(1), StrL("s")>>), <<P(V)>>, NoElse, 1)>>, d |-> <<>>]}
              \cup {[p |-> p, d |-> LoopData] : p \in UNION {LoopCtx(Assign("loop", e, 1)) : e \in LoopVals}}
+             \* a name of the enclosing block read and then assigned in the body: the loop's own binding is what later passes read
+             \cup {[p |-> <<Assign("t", IntL(0), 1), Each("v", Var("ar"), <<Assign("t", Bin("+", Var("t"), V), 1), P(Var("t")), H(",")>>, NoElse, 1), H("="), P(Var("t"))>>, d |-> CondData],
+                   [p |-> <<Each("v", Var("ar"), <<P(Var("ti")), Assign("ti", Bin("+", Var("ti"), IntL(1)), 1), H(",")>>, NoElse, 1), P(Var("ti"))>>, d |-> CondData],
+                   [p |-> <<Assign("t", IntL(0), 1), For(Assign("i", IntL(0), 1), Bin("<", Var("i"), IntL(3)), Post("++", Var("i")),
+                                                          <<If(<<Br(BoolL(TRUE), <<P(Var("t"))>>)>>, NoElse, 1), Assign("t", Bin("+", Var("t"), Var("i")), 1), P(Var("t")), H(",")>>, NoElse, 1), P(Var("t"))>>, d |-> <<>>]}
              \cup {[p |-> <<H("x"), P(Var("a"))>>, d |-> <<[n |-> "a", v |-> I(1)], [n |-> "loop", v |-> v]>>] : v \in LoopDataVals}
 
 \* empty bodies: a branch, an @else or a loop body may be empty (C02: "nothing otherwise")
